@@ -199,11 +199,20 @@ def generate(tier, seed):
                     add("%s.at %s a=%s" % (fam, h, i))
                 add("%s.front %s" % (fam, h))
                 add("%s.back %s" % (fam, h))
+            for ext in (0, 1, 2, 3, 4, 6):
+                for k in (0, 1, 2):
+                    add("sp.ctor_ext %s ext=%d k=%d" % (h, ext, k))
             for a in idxs(n):
                 add("vw.remove_prefix %s a=%s" % (h, a))
                 add("vw.remove_suffix %s a=%s" % (h, a))
                 add("sp.first %s a=%s" % (h, a))
                 add("sp.last %s a=%s" % (h, a))
+                if isinstance(a, int) and a < 7:      # the compile-time counts the harness instantiates
+                    add("sp.first_t %s a=%s" % (h, a))
+                    add("sp.last_t %s a=%s" % (h, a))
+                if isinstance(a, int) and a < 6:
+                    for b in [0, 1, 2, 3, 4, "npos"]:
+                        add("sp.subspan_t %s a=%s b=%s" % (h, a, b))
                 for b in list(range(0, n + 2)) + ["npos", U64 - 2, U63]:
                     add("vw.substr %s a=%s b=%s" % (h, a, b))
                     add("vw.copy %s a=%s b=%s" % (h, b, a))
@@ -301,8 +310,8 @@ def generate(tier, seed):
                                   | ({2 ** 32, 2 ** 32 + 5, 2 ** 63} if w == 64 else set())):
                     if pos < top:
                         add("bit which=%d w=%d pos=%d" % (which, w, pos))
-        for x in (0, 1, -7, 2 ** 31 - 1, -(2 ** 31)):
-            for y in (0, 1, -1, 3):
+        for x in (0, 1, -7, 7, 2 ** 31 - 1, -(2 ** 31), -(2 ** 31) + 1, rnd.randint(-(2 ** 31), 2 ** 31 - 1)):
+            for y in (0, 1, -1, 3, -3, 2 ** 31 - 1, -(2 ** 31), rnd.randint(-(2 ** 31), 2 ** 31 - 1)):
                 add("div_sat x=%d y=%d" % (x, y))
         for d in (0, 1, 12, 31, 254, 255, 256, 300, 2 ** 32 - 1):
             add("day d=%d" % d)
